@@ -18,10 +18,11 @@
 
   Two places need data the model cannot compute (floating-point geometry):
    * `Region.CellUnionBound()` – passed in as the list `bound`;
-   * the re-covering `NewRegionCoverer().Covering(covering)` inside `normalizeCovering`
-     (taken when the covering is non-canonical and `excess*len > 10000`) – passed in as the
-     function `recover`; `recoverDefault` instantiates it with the model itself, given the inner
-     start cells.
+   * the re-covering `rc.Covering(covering)` inside `normalizeCovering` (taken when the covering is
+     non-canonical and `excess*len > 10000`; since repair e130a30 `rc` carries the coverer's OWN
+     options) – `normalizeCovering` takes it as the function `recover`; `normalizeCoveringRec`
+     ties the knot as the code does (Covering → initialCandidates → temp.FastCovering →
+     normalizeCovering → …), the only external datum being `geo cu` = `(&cu).CellUnionBound()`.
   Core-only.
 -/
 import S2.CellID
@@ -313,7 +314,7 @@ where
     excludes that case) -/
 def replaceCellsWithAncestor (cov : CU) (id : CellID) : CU :=
   let a := cov.toArray
-  let b := sortSearch a.size (fun i => a[i]! > rangeMin id)
+  let b := sortSearch a.size (fun i => a[i]! ≥ rangeMin id)
   let e := sortSearch a.size (fun i => a[i]! > rangeMax id)
   -- `append(covering[:b], id)` writes `id` at index `b` of the backing array when `b < len`
   let a' := if b < a.size then a.set! b id else a
@@ -347,9 +348,10 @@ def mergeUp (cfg : Config) : Nat → CU → CellID → Int → CU
       else mergeUp cfg fuel (replaceCellsWithAncestor cov id) id bestLevel
     else cov
 
-/-- the outer `for len(*covering) > c.maxCells` loop.  (Go can spin forever here when the covering
-    holds a LEAF cell that is the first leaf of the chosen ancestor — `replaceCellsWithAncestor`
-    uses `>` where C++ uses `lower_bound`; the model stops after `fuel` rounds.) -/
+/-- the outer `for len(*covering) > c.maxCells` loop.  Every round replaces at least two cells by
+    one (since repair cd338c8 `replaceCellsWithAncestor` uses `>=` = C++ `lower_bound`; before, a
+    LEAF cell equal to the ancestor's RangeMin was kept and Go span forever), so `fuel = len` rounds
+    always suffice. -/
 def mergeLoop (cfg : Config) : Nat → CU → CU
   | 0, cov => cov
   | fuel+1, cov =>
@@ -376,13 +378,13 @@ def preNormalize (cfg : Config) (cov : CU) : CU :=
   let cov := normalize (clampLevels cfg cov)
   if cfg.minLevel > 0 || cfg.levelMod > 1 then denormalize cov cfg.minLevel cfg.levelMod else cov
 
-/-- does `normalizeCovering` take the `rc := NewRegionCoverer(); rc.Covering(covering)` branch? -/
+/-- does `normalizeCovering` take the `rc.Covering(covering)` branch? -/
 def takesRecover (cfg : Config) (cov : CU) : Bool :=
   let cov := preNormalize cfg cov
   let excess : Int := (cov.length : Int) - cfg.maxCells
   !(excess ≤ 0 || isCanonical cfg cov) && excess * cov.length > 10000
 
-/-- `coverer.normalizeCovering`; `recover cov` stands for `NewRegionCoverer().Covering(&cov)`. -/
+/-- `coverer.normalizeCovering`; `recover cov` stands for `rc.Covering(&cov)` (`rc` = own options). -/
 def normalizeCovering (cfg : Config) (recover : CU → CU) (cov : CU) : CU :=
   let cov := preNormalize cfg cov
   let excess : Int := (cov.length : Int) - cfg.maxCells
@@ -400,9 +402,35 @@ def tempOptions (cfg : Config) : Options := ⟨0, cfg.maxLevel, 1, min 4 cfg.max
 /-- a `CellUnion` used as a region -/
 def cellUnionRegion (cu : CU) : Region := ⟨containsCellID cu, intersectsCellID cu⟩
 
-/-- `NewRegionCoverer().Covering(&cu)`, given the start cells of that inner search -/
-def recoverDefault (innerStart : CU → CU) (cu : CU) : CU :=
-  covering defaultOptions (cellUnionRegion cu) (innerStart cu)
+/-- the `RegionCoverer` literal built in the re-cover branch:
+    `&RegionCoverer{MinLevel: c.minLevel, MaxLevel: c.MaxLevel, LevelMod: c.levelMod, MaxCells: c.maxCells}` -/
+def optionsOf (cfg : Config) : Options := ⟨cfg.minLevel, cfg.maxLevel, cfg.levelMod, cfg.maxCells⟩
+
+/-- `rc.Covering(&cu)` of the re-cover branch, given the start cells of that inner search -/
+def recoverOwn (cfg : Config) (innerStart : CU → CU) (cu : CU) : CU :=
+  covering (optionsOf cfg) (cellUnionRegion cu) (innerStart cu)
+
+/-- `normalizeCovering` with the re-cover recursion of the code spelled out:
+    `rc.Covering(&cov)` → `coveringInternal` → `initialCandidates` → `temp.FastCovering(&cov)` →
+    `temp.normalizeCovering((&cov).CellUnionBound())` → (possibly) re-cover again → …
+    `geo cu` stands for `(&cu).CellUnionBound()` (= `cu.CapBound().CellUnionBound()`, float geometry).
+    Whether the real recursion ends depends on that geometry (the cap bound grows at every round until
+    face cells, which are canonical, are reached); the model stops after `fuel` nested re-coverings
+    and then keeps the pre-normalised covering (which already satisfies the level limits). -/
+def normalizeCoveringRec : Nat → (CU → CU) → Config → CU → CU
+  | 0, _, cfg, cov => normalizeCovering cfg (fun c => c) cov
+  | fuel+1, geo, cfg, cov =>
+    normalizeCovering cfg
+      (fun c => recoverOwn cfg
+        (fun c' => normalizeCoveringRec fuel geo (newCoverer (tempOptions cfg)) (geo c')) c) cov
+
+/-- `RegionCoverer.FastCovering` with the recursion spelled out -/
+def fastCoveringRec (fuel : Nat) (geo : CU → CU) (o : Options) (bound : CU) : CU :=
+  normalizeCoveringRec fuel geo (newCoverer o) bound
+
+/-- the start cells computed by `initialCandidates`, recursion spelled out -/
+def startCellsRec (fuel : Nat) (geo : CU → CU) (o : Options) (bound : CU) : CU :=
+  fastCoveringRec fuel geo (tempOptions (newCoverer o)) bound
 
 /-- the whole of `Covering` / `InteriorCovering` / `CellUnion` from `CellUnionBound()` on -/
 def startCells (o : Options) (recover : CU → CU) (bound : CU) : CU :=
